@@ -3,7 +3,10 @@ from props import prop
 prop("C20", "exploration",
      "exhaustive: every pattern over {a,b,*} of length 0..6 x every input over {a,b} of length 0..7 (thorough: 0..8 / 0..9); "
      "random pairs over {a,b,c,.,-,*} up to length 40, half built by instantiating the pattern's stars and then perturbed; "
-     "host-block lists and vhost lists over the same pattern space; SEQUENCES of 1..6 lookups on ONE client configuration "
+     "host-block lists and vhost lists over the same pattern space, a host block having 1..3 patterns or - one time in five - NO "
+     "pattern at all (nil list = [[Hosts]] table without a Patterns key, or empty list = 'Patterns = []') at any position, "
+     "the empty string being a pattern like any other and the empty host being asked now and then (reference: a block applies "
+     "iff at least one of its patterns matches; a block without patterns matches nothing); SEQUENCES of 1..6 lookups on ONE client configuration "
      "(Global + 0..5 blocks each setting a drawn subset of Hostname/User/Key/Cmd/Port/CAFiles/AutoSelfSign; built as a "
      "struct literal or rendered to TOML and read by LoadClientConfigFromFile from a map file system), hosts repeating "
      "now and then, the caller using each returned block as flags.mergeClientFlagsAndConfig does (assign address / "
@@ -12,10 +15,22 @@ prop("C20", "exploration",
      "matching blocks in order, VirtualHosts.Match must return the first matching entry; in a sequence every lookup must "
      "equal the model merge AND the same lookup on a newly built copy of the configuration, the configuration object "
      "must read the same as a never-used copy after every lookup and after the caller's use of the result, and a block "
-     "handed out earlier and not touched by the caller must still read as when returned. Non-trivial (sequences) = >= 2 "
+     "handed out earlier and not touched by the caller must still read as when returned. SERVER CALLBACKS: a server built by the "
+     "real hopserver.NewHopServer (real UDP socket on 127.0.0.1, Serve not started) from a generated configuration (0..5 Names "
+     "blocks + optional server-level certificate = trailing '*' host, 0..2 HiddenModeVHostNames; patterns free over "
+     "{a,b,*,.,1,f,6,NUL,0xff,0xc3,0x80,0x7f}, or cut out of a requested label, or cut out of a PRINTED form of a requested label: "
+     "hex dump / dotted or colon address); the GetCertificate / GetCertList closures it installed are read out of the transport "
+     "server (reflection) and called with 1..4 requested names: every type byte 0..255 (raw, DNS, IPv4, IPv6, unassigned), labels "
+     "of arbitrary bytes (not UTF-8, NUL, '*'), nil / empty, 4 and 16 bytes long. Oracle: no panic; the certificate returned is that "
+     "of the FIRST virtual host whose pattern glob-matches the label bytes (reference), none plus an error when no pattern matches; "
+     "GetCertList returns the first matching host of every hidden-mode name in order (not judged when there are more names than "
+     "hosts). Non-trivial (callbacks) = unassigned type, or the first match is not host 0, or a printed form of the label would "
+     "select another host. Non-trivial (sequences) = >= 2 "
      "lookups with >= 2 different sets of applied blocks, one of which sets an option. Non-trivial (others) = pattern with both a "
      "star and a literal, or empty input with a non-empty pattern; distinct by (pattern,input) / list hash.",
-     ["matching is byte-wise, case-sensitive (as the package documents by its commented-out fold option)"],
+     ["matching is byte-wise, case-sensitive (as the package documents by its commented-out fold option)",
+      "the requested name is matched by its label bytes whatever its type byte says (VirtualHosts.Match: 'This only does raw string "
+      "matching'); the server callbacks are reached through the unexported field transport.Server.config (white-box, reflection)"],
      [dict(name="glob", pkg="pkg/glob", run="^TestVerifC20", shards=dict(quick=8, thorough=16), thorough_scale=20),
       dict(name="config", pkg="config", run="^TestVerifC20", shards=dict(quick=2, thorough=8), thorough_scale=20),
       dict(name="hopserver", pkg="hopserver", run="^TestVerifC20", shards=dict(quick=2, thorough=8), thorough_scale=20)],
@@ -23,7 +38,9 @@ prop("C20", "exploration",
      text="The real Glob is compared with a dynamic-programming reference on every pattern/input pair of a small alphabet up to "
           "length 6/7 (exhaustive) and on random longer pairs built to match or nearly match; MatchHost and VirtualHosts.Match "
           "are compared with the reference applied to generated block / vhost lists; sequences of lookups on one configuration "
-          "object (literal or parsed from TOML) must each equal the lookup on a new copy and leave the object unchanged. "
+          "object (literal or parsed from TOML) must each equal the lookup on a new copy and leave the object unchanged; host "
+          "blocks without patterns occur at every position; the certificate callbacks installed by the real NewHopServer are "
+          "called with requested names of every type byte and arbitrary label bytes and must choose the first matching host. "
           "Panics are caught and reported.",
      note="trusts the DP reference (cross-checked against path.Match at start-up) and rapid",
      technique="property-based testing (rapid) + exhaustive small-alphabet enumeration against a reference matcher",
